@@ -238,7 +238,7 @@ func poolCluster(name string, max int32) *proxyv1alpha1.UpstreamCluster {
 }
 
 func TestPropLeaderGuard(t *testing.T) {
-	sub := stats.NewSub("leader-guard-histories", "rapid state machine on the real limiter with a real elector without leases (N in 1..4 shards, local / API-backed store): the REAL leader elector driven by leadership events through a hook; ops gain, a start attempt that hangs in Load and is overtaken by a loss and a second, successful start before it fails (API-backed store), lose (optionally with a tick of the periodic leader check landing while the loss is being processed), foreign leader announced (+leaderCheck), leader entry vanished without callback (+leaderCheck), allocate, acquire, cluster update, for a pool of upstream names; model = set of led shards and the conditions acknowledged per shard; oracle: a call succeeds iff the upstream's shard (reference function) is led, otherwise error naming the recorded leader and no store exists for the shard; a cluster update for a shard not led changes nothing; after lose+regain with the local store earlier conditions are gone; after a successful allocate only the owning shard's store holds the condition; non-trivial = history has a loss of leadership after a successful call and a later call for that shard; distinct by FNV-64 of the op trace")
+	sub := stats.NewSub("leader-guard-histories", "rapid state machine on the real limiter with a real elector without leases (N in 1..4 shards, local / API-backed store): the REAL leader elector driven by leadership events through a hook; ops gain, a start attempt that hangs in Load and is overtaken by a loss and a second, successful start before it fails (API-backed store), lose (optionally with a tick of the periodic leader check landing while the loss is being processed), foreign leader announced (allocate and acquire are tried between the announcement and the periodic leader check, then leaderCheck), leader entry vanished without callback (+leaderCheck), allocate, acquire, cluster update, for a pool of upstream names; model = set of led shards and the conditions acknowledged per shard; oracle: a call succeeds iff the upstream's shard (reference function) is led, otherwise error naming the recorded leader and no store exists for the shard; a cluster update for a shard not led changes nothing; after lose+regain with the local store earlier conditions are gone; after a successful allocate only the owning shard's store holds the condition; non-trivial = history has a loss of leadership after a successful call and a later call for that shard; distinct by FNV-64 of the op trace")
 	stats.Check(t, stats.N(4000, 25000), func(t *rapid.T) {
 		n := rapid.IntRange(1, 4).Draw(t, "N")
 		kind := rapid.SampledFrom([]string{"local", "k8s"}).Draw(t, "store")
@@ -353,9 +353,13 @@ func TestPropLeaderGuard(t *testing.T) {
 				// between the announcement and the periodic leader check the guard must already refuse
 				name := pool[rapid.IntRange(0, len(pool)-1).Draw(t, "probe")]
 				if refShard(name, n) == s {
-					_, err := report(box, name, "i1")
-					if err == nil {
+					// every entry point that changes quota state: allocate and acquire
+					if _, err := report(box, name, "i1"); err == nil {
 						t.Fatalf("allocate for shard %d succeeded after another leader was announced\ntrace: %s", s, trace)
+					}
+					ids["i1"]++
+					if out, err := acquire(box, name, "i1", ids["i1"], int32(rapid.IntRange(0, 3).Draw(t, "n"))); err == nil {
+						t.Fatalf("acquire for shard %d was served (%+v) after another leader was announced\ntrace: %s", s, out.Status.Results, trace)
 					}
 				}
 				box.Limiter.VerifLeaderCheck()
